@@ -1413,3 +1413,115 @@ func WithParamAtoms(sub map[*ssa.Parameter]map[string]bool, f func()) {
 func IsFailureValue(v ssa.Value, fk FailKind) bool {
 	return isFailureValue(v, fk, &pathEnv{cells: map[*ssa.Alloc]ssa.Value{}, nonnil: map[ssa.Value]bool{}, isnil: map[ssa.Value]bool{}})
 }
+
+// MustPassBeforeReturn: does every feasible path from just after 'start' to a return of the function pass an
+// instruction accepted by target?  Paths are followed with the values of boolean phis that are decided by
+// the edges taken (a flag set to true on the way is known to be true at a later test of it), so that
+// "if helperStartedSomething { mark = true }" is seen as marking whenever something was started.  Returns a
+// description of an escaping path's end, or "".
+func MustPassBeforeReturn(start ssa.Instruction, target func(ssa.Instruction) bool) string {
+	type state struct {
+		b     *ssa.BasicBlock
+		from  int // index of the first instruction to look at
+		known map[ssa.Value]bool
+	}
+	keyOf := func(s state) string {
+		var ks []string
+		for v, t := range s.known {
+			ks = append(ks, fmt.Sprintf("%s=%v", v.Name(), t))
+		}
+		sort.Strings(ks)
+		return fmt.Sprintf("%d|%s", s.b.Index, strings.Join(ks, ","))
+	}
+	resolve := func(v ssa.Value, known map[ssa.Value]bool) (bool, bool) {
+		neg := false
+		for {
+			if u, ok := v.(*ssa.UnOp); ok && u.Op == token.NOT {
+				neg = !neg
+				v = u.X
+				continue
+			}
+			break
+		}
+		if c, ok := v.(*ssa.Const); ok && c.Value != nil && c.Value.Kind() == constant.Bool {
+			return constant.BoolVal(c.Value) != neg, true
+		}
+		if t, ok := known[v]; ok {
+			return t != neg, true
+		}
+		return false, false
+	}
+	b0 := start.Block()
+	idx := 0
+	for i, ins := range b0.Instrs {
+		if ins == start {
+			idx = i + 1
+		}
+	}
+	seen := map[string]bool{}
+	work := []state{{b0, idx, map[ssa.Value]bool{}}}
+	for len(work) > 0 {
+		s := work[len(work)-1]
+		work = work[:len(work)-1]
+		passed := false
+		for _, ins := range s.b.Instrs[s.from:] {
+			if target(ins) {
+				passed = true
+				break
+			}
+		}
+		if passed {
+			continue
+		}
+		last := s.b.Instrs[len(s.b.Instrs)-1]
+		if _, isRet := last.(*ssa.Return); isRet {
+			return "the return at block " + fmt.Sprint(s.b.Index)
+		}
+		succs := s.b.Succs
+		if iff, ok := last.(*ssa.If); ok && len(succs) == 2 {
+			if t, ok := resolve(iff.Cond, s.known); ok {
+				if t {
+					succs = succs[:1]
+				} else {
+					succs = succs[1:]
+				}
+			}
+		}
+		for _, nb := range succs {
+			ei := -1
+			for k, pr := range nb.Preds {
+				if pr == s.b {
+					ei = k
+				}
+			}
+			nk := map[ssa.Value]bool{}
+			for v, t := range s.known {
+				nk[v] = t
+			}
+			var upd []func()
+			for _, ins := range nb.Instrs {
+				ph, ok := ins.(*ssa.Phi)
+				if !ok {
+					break
+				}
+				ph2 := ph
+				if ei >= 0 {
+					if t, ok := resolve(ph.Edges[ei], s.known); ok {
+						upd = append(upd, func() { nk[ph2] = t })
+						continue
+					}
+				}
+				upd = append(upd, func() { delete(nk, ph2) })
+			}
+			for _, f := range upd {
+				f()
+			}
+			ns := state{nb, 0, nk}
+			if k := keyOf(ns); !seen[k] {
+				seen[k] = true
+				work = append(work, ns)
+			}
+		}
+	}
+	return ""
+}
